@@ -202,6 +202,7 @@ def register(PROPS):
         "assumptions": CLIENT_ASSUME,
     }
     PROPS["C11"] = {
+        "generated_layer": True,
         "gens": [{"id": "C11", "quick": 30000, "thorough": 800000, "thorough_seeds": 12},
                  {"id": "C01", "quick": 15000, "thorough": 300000, "thorough_seeds": 6}],
         "compare": cmp_client,
